@@ -45,12 +45,23 @@ func main() {
 			fmt.Fprintln(os.Stderr, err)
 			os.Exit(2)
 		}
+		// helpers of the reference tree that stay "unknown" on purpose: the normaliser then inlines them into their callers like any
+		// helper a later change introduces, and the rules see the code where it takes effect
+		inlineAlways := []string{"hap|*Connection|decryptFrame"}
 		if len(os.Args) > 3 && os.Args[3] == "fp" {
-			b, _ := json.Marshal(prog.FingerprintsOf())
+			fp := prog.FingerprintsOf()
+			for _, k := range inlineAlways {
+				delete(fp, k)
+			}
+			b, _ := json.Marshal(fp)
 			os.Stdout.Write(b)
 			return
 		}
-		b, _ := json.MarshalIndent(prog.AnchorsOf(), "", " ")
+		an := prog.AnchorsOf()
+		for _, k := range inlineAlways {
+			delete(an, k)
+		}
+		b, _ := json.MarshalIndent(an, "", " ")
 		os.Stdout.Write(b)
 	case "norm":
 		// debug: hcsa norm <repo> <outdir>: what the helper-inlining pass does to the tree
